@@ -499,3 +499,14 @@ PROPS["C08"]["assumptions"].append("engine Z adds four single real-thread execut
 PROPS["C12"]["quick"].append({"engine": "S", "bin": "c13", "args": ["perm"], "parts": 8})
 PROPS["C12"]["thorough"].append({"engine": "S", "bin": "c13", "args": ["perm"], "parts": 16, "timeout": 3000})
 META["C12"]["engine"] = "Z+S"
+
+
+# exact allocation figures through the real global AllocProfiler and real threads
+PROPS["C02"]["quick"].append({"engine": "Z", "prop": "C02"})
+PROPS["C02"]["thorough"].append({"engine": "Z", "prop": "C02"})
+META["C02"]["engine"] = "S+L+Z"
+PROPS["C02"]["assumptions"].append("engine Z: three benchmarks with an exactly known allocation pattern (one 32-byte allocation per call; 64-byte input allocated before the start; output dropped after the end) run through the real global AllocProfiler on 1 and 2 real threads under 4 option variants; figures per iteration must be exactly 1 / 32 B / no dealloc")
+PROPS["C10"]["quick"].append({"engine": "Z", "prop": "C10"})
+PROPS["C10"]["thorough"].append({"engine": "Z", "prop": "C10"})
+META["C10"]["engine"] = "S+L+Z"
+PROPS["C10"]["assumptions"].append("engine Z: the same exact-allocation benchmarks through the real System allocator wrapper on 1 and 2 real threads (per-thread tallies must not mix)")
